@@ -20,6 +20,7 @@ LEVEL_TEXT = (
     "exactly on the negative edge of `u < eps` with u drawn from the agent's own generator in [0,1) - so eps = 0 is always "
     "greedy; no other randomness source. These decide the update rules for every reward sequence because they do not depend on values."
     ' `learn` is read path by path: every path counts the visit and then updates the estimate with the post-increment count; the reward is read from per-path summaries (decisions, returned value, stores), so guard-clause and if/else forms read alike.'
+    " Determinism of the agent's choices from its seed: every _set_random_state override between the agent and BaseSeedable hands the seed on unmodified (seed 0 included) before anything is drawn (C01-R3)."
 )
 TECHNIQUE = "per-path function summaries (path-sensitive forward substitution with attribute versioning) + rational normal forms + CFG ordering queries"
 
